@@ -131,12 +131,15 @@ func (g *c12Gen) r6Form(op *c12Op) {
 	}
 }
 
-// r6ExtForm: an external lookup may answer boxed values too (only values
-// reflect allows to hand out: a lookup answering a read-only reflect.Value is
-// outside the generated domain - UNSPECIFIED whether Get then fails or not).
+// r6ExtForm: an external lookup may answer boxed values too, and (round 7,
+// c12_r7.go) reflect.Values read out of an unexported struct field: a lookup of
+// a name so supplied is an invalid request.
 func (g *c12Gen) r6ExtForm(op *c12Op) {
-	if g.r.Intn(3) == 0 {
+	switch r := g.r.Intn(12); {
+	case r < 4:
 		op.F = c12FormMapElem + g.r.Intn(2)
+	case r < 6:
+		op.F = c12FormROField + g.r.Intn(3)
 	}
 }
 
